@@ -194,11 +194,23 @@ func Verif_C02_Faults(withQ int) {
 // longer run, a look-alike name without the dot, a user file; package q is in
 // the module but not requested. Generators render / render nothing / ErrSkip /
 // ErrIgnore symbolically; All symbolic.
-func Verif_C07_Effects() {
+func Verif_C07_Effects() { vEffects(0) }
+
+// Verif_C07_EffectsNames: the look-alike file is one of several names that merely
+// start with the base name (case split), and the stale output one of several
+// <base>.<something> names.
+func Verif_C07_EffectsNames() { vEffects(1) }
+
+func vEffects(names int) {
 	vReset()
 	w := vNewWorld()
 	files := []string{"p.go"}
-	opt := []string{vBase + ".ga.go", vBase + ".gb.go", vBase + ".old.go", vBase + "x.go", "user.go"}
+	lookAlike, stale := vBase+"x.go", vBase+".old.go"
+	if names == 1 {
+		lookAlike = []string{vBase + "x.go", vBase + "_old.go", vBase, vBase + "_test.go"}[verifsym.IntRange(0, 3)]
+		stale = []string{vBase + ".old.go", vBase + ".go", vBase + ".ga.go.bak"}[verifsym.IntRange(0, 2)]
+	}
+	opt := []string{vBase + ".ga.go", vBase + ".gb.go", stale, lookAlike, "user.go"}
 	had := map[string]bool{}
 	for _, f := range opt {
 		if verifsym.Bool() {
@@ -268,7 +280,7 @@ func Verif_C07_Effects() {
 			verifsym.Assert(!exists, "a generator rendered nothing but its file exists afterwards")
 		}
 	}
-	_, staleLeft := after[w.root+"/p/"+vBase+".old.go"]
+	_, staleLeft := after[w.root+"/p/"+stale]
 	verifsym.Assert(!staleLeft, "stale output of a generator that is no longer run was not removed")
 	for _, l := range vState.log {
 		if vHasSub(l, "example.com/m/q.") {
